@@ -221,6 +221,7 @@ Proof.
   intros Hsoft Hcfg Hrt p nullable d v Hb H.
   unfold leaf_in in H. rewrite Hsoft in H. cbn [andb] in H.
   destruct (validate_pre C p nullable d) eqn:Hvp; cbn [negb] in H; [|discriminate].
+  destruct (guard_pre p d); cbn [negb] in H; [|discriminate].
   destruct (norm_bytes C p d) as [d'| |] eqn:En; cbn [bind] in H; try discriminate.
   destruct (leaf_raw C p d') as [v0| |] eqn:Er; cbn [bind] in H; try discriminate.
   destruct (validate_native p nullable v0) as [[]| |] eqn:Ev; cbn [bind] in H; try discriminate.
